@@ -223,6 +223,46 @@ fn htlc_timeout_probe(a: &mut Vec<i128>) -> String {
 	format!("{} {}", closed as u8, best - cltv)
 }
 
+/// revoked_htlc_claim_probe <has_output 0/1> <offered_by_cheater 0/1>
+/// Node 0 cheats: its commitment holding one pending HTLC (3 000 sat if has_output, else a 100 sat dust HTLC;
+/// offered by node 0 or received by it) is saved, the channel moves on (the HTLC is claimed, revoking that
+/// commitment), and the saved transaction is then confirmed on node 1's chain. Output: 1 if node 1 broadcasts a
+/// transaction spending the HTLC's output of the revoked commitment (always 0 for a dust HTLC: there is no output).
+fn revoked_htlc_claim_probe(a: &mut Vec<i128>) -> String {
+	let (has_output, offered) = (a[0] != 0, a[1] != 0);
+	let chanmon_cfgs = create_chanmon_cfgs(2);
+	let node_cfgs = create_node_cfgs(2, &chanmon_cfgs);
+	let node_chanmgrs = create_node_chanmgrs(2, &node_cfgs, &[None, None]);
+	let nodes = create_network(2, &node_cfgs, &node_chanmgrs);
+	*nodes[0].connect_style.borrow_mut() = ConnectStyle::FullBlockViaListen;
+	*nodes[1].connect_style.borrow_mut() = ConnectStyle::FullBlockViaListen;
+	let chan = create_announced_chan_between_nodes(&nodes, 0, 1);
+	let chan_id = chan.2;
+	// some balance on both sides first, so that either direction can carry the HTLC
+	send_payment(&nodes[0], &[&nodes[1]], 10_000_000);
+	let amt = if has_output { 3_000_000 } else { 100_000 };
+	let (src, dst) = if offered { (0, 1) } else { (1, 0) };
+	let (preimage, _, _, _) = route_payment(&nodes[src], &[&nodes[dst]], amt);
+	let revoked = {
+		let mon = nodes[0].chain_monitor.chain_monitor.get_monitor(chan_id).unwrap();
+		mon.unsafe_get_latest_holder_commitment_txn(&nodes[0].logger)[0].clone()
+	};
+	claim_payment(&nodes[src], &[&nodes[dst]], preimage);
+	let vout = revoked.output.iter().position(|o| o.value.to_sat() == amt / 1000);
+	nodes[1].tx_broadcaster.txn_broadcasted.lock().unwrap().clear();
+	mine_transaction(&nodes[1], &revoked);
+	let txid = revoked.compute_txid();
+	let claimed = match vout {
+		Some(v) => nodes[1].tx_broadcaster.txn_broadcasted.lock().unwrap().iter().any(|t| {
+			t.input.iter().any(|i| i.previous_output.txid == txid && i.previous_output.vout == v as u32)
+		}),
+		None => false,
+	};
+	let res = format!("{} {}", claimed as u8, vout.is_some() as u8);
+	core::mem::forget(nodes);
+	res
+}
+
 fn main() {
 	if std::env::var("ORACLE_DEBUG").is_err() { std::panic::set_hook(Box::new(|_| {})); }
 	let stdin = std::io::stdin();
@@ -242,6 +282,7 @@ fn main() {
 			"prune_probe" => prune_probe(&mut args),
 			"monitor_reorg_probe" => monitor_reorg_probe(&mut args),
 			"htlc_timeout_probe" => htlc_timeout_probe(&mut args),
+			"revoked_htlc_claim_probe" => revoked_htlc_claim_probe(&mut args),
 			_ => format!("error unknown function {}", name),
 		}));
 		match r {
